@@ -7,19 +7,19 @@ RULE = ("P1: for every length 0..NMax (quick 17, thorough 40: every residue of t
         " a table of special values (+-0, +-inf, NaN, subnormals, huge) where the spec fixes which two operands meet at"
         " each position and in which order, are replayed through Vector and through Matrix in every factorisation of "
         "the length, in every ownership variant (owned/borrowed operands, scalar left/right, compound assignment incl. "
-        "same-size-different-shape rejection), operands re-read afterwards; all 29 unary maps (also on ordinary values "
-        "q/4, |q| <= 14, where floor, ceil, round - ties away from zero whatever the parity - signum and abs have the "
-        "exact meaning the spec gives, Inv_Rounding), powi(-1..4), powf(.5, 2, 2.5, 3), negation at every length bit-"
-        "exact against the scalar f64 method; reductions (sum, prod, dot, norm, inf_norm, logsumexp, logmeanexp incl. "
-        "constants up to +-1e4 and the shift identity) against exact integer values; P3: random lengths up to 300 and "
-        "ten operands of length 1024..10000 (every form; Vector and Matrix) with random integer operands recorded and "
-        "validated by TLC (Trace_Elementwise). powf additionally with real exponents 3, 5, -2, -1/2, 100, -171, 3e9, 0 "
-        "(and powi -3, 5, 17, -1024, 1075 and the ends of the exponent's range i32::MAX, i32::MIN + 1, i32::MIN) on "
-        "operands x * 1.1 + 0.3 that are not small integers. Sums and means with +-inf, NaN, both infinities or an "
-        "overflowing partial sum at the first, middle and last position follow IEEE arithmetic. The scalar of the "
-        "special-value cases ranges over NaN, +-0, inf, 1 and -1.5, and every special value occurs as a left operand. "
-        "Case class = (container, form, ownership variant, operator, length class n=0 / n<8 / n%8=0 / other, ok or kind"
-        " of mismatch).")
+        "same-size-different-shape rejection), operands re-read afterwards; all 29 unary maps (once per run also on a "
+        "vector and a column matrix of 70001 elements; also on ordinary values q/4, |q| <= 14, where floor, ceil, round"
+        " - ties away from zero whatever the parity - signum and abs have the exact meaning the spec gives, "
+        "Inv_Rounding), powi(-1..4), powf(.5, 2, 2.5, 3), negation at every length bit-exact against the scalar f64 "
+        "method; reductions (sum, prod, dot, norm, inf_norm, logsumexp, logmeanexp incl. constants up to +-1e4 and the "
+        "shift identity) against exact integer values; P3: random lengths up to 300 and ten operands of length "
+        "1024..10000 (every form; Vector and Matrix) with random integer operands recorded and validated by TLC "
+        "(Trace_Elementwise). powf additionally with real exponents 3, 5, -2, -1/2, 100, -171, 3e9, 0 (and powi -3, 5, "
+        "17, -1024, 1075 and the ends of the exponent's range i32::MAX, i32::MIN + 1, i32::MIN) on operands x * 1.1 + "
+        "0.3 that are not small integers. Sums and means with +-inf, NaN, both infinities or an overflowing partial sum"
+        " at the first, middle and last position follow IEEE arithmetic. The scalar of the special-value cases ranges "
+        "over NaN, +-0, inf, 1 and -1.5, and every special value occurs as a left operand. Case class = (container, "
+        "form, ownership variant, operator, length class n=0 / n<8 / n%8=0 / other, ok or kind of mismatch).")
 ASSUMPTIONS = ["on special values the scalar f64 operation/method itself is the oracle the property names (computed by the harness per position); the spec decides position, operand order, length, shape",
                "reductions are judged on the exact sub-domain (small integers); the rounding bound for general reals is not decided"]
 EXHAUSTIVE = True
